@@ -20,6 +20,7 @@ for d in sorted(glob.glob(os.path.join(V, "seeded", "C*-m*"))):
         p = subprocess.run([os.path.join(V, "check"), pid, "--tier", "quick"], capture_output=True, text=True, cwd=V)
     finally:
         subprocess.run(["git", "-C", "/repo", "checkout", "--", "."])
+        subprocess.run(["git", "-C", "/repo", "clean", "-fdq", "--", "simfile"])
     vio = [l for l in p.stdout.splitlines() if l.startswith("VIOLATION")]
     with_input = [l for l in vio if "no-failing-input-found" not in l]
     verdict = "CAUGHT(with input)" if with_input else "CAUGHT(no input)" if vio else "MISSED"
